@@ -403,7 +403,7 @@ fn simple_get(ctx: &mut Ctx) -> ReqCfg {
 
 fn c12_oversize(ctx: &mut Ctx) -> R {
     set_observed(false);
-    let kind = ctx.draw(7);
+    let kind = ctx.draw(8);
     let (cfg, body, stream, close_after): (ReqCfg, Vec<u8>, Vec<u8>, bool) = match kind {
         0 => {
             // a field name of >= 64 KiB
@@ -458,6 +458,26 @@ fn c12_oversize(ctx: &mut Ctx) -> R {
             s.extend_from_slice(b"\r\nContent-Length: 0\r\n\r\n");
             ctx.count("f:hostile_giant_reason");
             (simple_get(ctx), vec![], s, false)
+        }
+        7 => {
+            // interim responses nobody asked for: unsolicited, duplicated, with fields, then silence
+            let mut s = Vec::new();
+            for _ in 0..ctx.range(1, 3) {
+                s.extend_from_slice(*ctx.pick(&[&b"HTTP/1.1 100 Continue\r\n\r\n"[..], b"HTTP/1.1 100 \r\n\r\n", b"HTTP/1.1 100 Continue\r\nX: y\r\n\r\n", b"HTTP/1.1 102 Processing\r\n\r\n", b"HTTP/1.0 100 Continue\r\n\r\n"]));
+            }
+            if ctx.flip() {
+                s.extend_from_slice(b"HTTP/1.1 200 OK\r\nContent-Length: 2\r\n\r\nok");
+            }
+            ctx.count("f:hostile_unsolicited_interim");
+            let mut c = simple_get(ctx);
+            if ctx.flip() {
+                c.method = "POST".into();
+                if ctx.flip() {
+                    c.expect = true;
+                    c.orig.push(("expect".into(), b"100-continue".to_vec()));
+                }
+            }
+            (c, b"data".to_vec(), s, false)
         }
         _ => {
             // a giant field value and a giant chunk extension
